@@ -29,7 +29,7 @@ func init() {
 			"(T5) between DecodeElement and the return of Scan nothing is stored through the decoded object and it is handed to no code the analysis does not enter: the scanner yields what encoding/xml decoded, as a whole-document decode does. " +
 			"T2-T5 are decided on the behaviour observed by an abstract interpreter that explores Scan / UnmarshalXML, with everything they call, once per element name (and attribute name). " +
 			"NOT decided: everything encoding/xml itself does (attribute order, whitespace, comments, entities, self-closing tags, unknown names are its documented behaviour), equality of decoded values, names outside the table (library extensions are covered by C04's symmetry rules only), and behaviour that only shows from the second iteration of a loop on.",
-		Assumptions: []string{"go/types (x/tools v0.29.0)", "documented naming rules of encoding/xml (struct tags, XMLName, slices append per occurrence, a nil pointer field is allocated once and reused, DecodeElement fills the pointee of a non-nil pointer and keeps the pointer)", "the path-enumerating abstract interpreter of rules/c03_eval.go (one iteration per loop, calls outside the repository opaque, function literals / defer / goroutines make the exploration undecided)", "tables/osmxml.json transcribes the OSM documentation correctly"},
+		Assumptions: []string{"go/types (x/tools v0.29.0)", "documented naming rules of encoding/xml (struct tags, XMLName, slices append per occurrence, a nil pointer field is allocated once and reused, DecodeElement fills the pointee of a non-nil pointer and keeps the pointer)", "the path-enumerating abstract interpreter of rules/c03_eval.go (one iteration per loop, calls outside the repository opaque, function literals, method values, deferred calls, pointers to fields and never-reassigned unexported package-level tables are followed; goroutines, goto, generic functions and calls whose target is not known on the path make the exploration undecided)", "tables/osmxml.json transcribes the OSM documentation correctly"},
 		LevelText:   "Structural necessary conditions: struct tags agree with the externally specified OSM XML names for every table entry; for every element name the streaming scanner yields exactly the freshly decoded object of the container field's type, unmodified, and walks into everything else; custom decoders store the documented names into the documented fields. Value equality and encoding/xml's own behaviour are not decided.",
 		LevelNote:   "Trusts the type checker, the documented naming rules of encoding/xml (re-implemented in rules/c03_xmlmodel.go) and the abstract interpreter's modelling of the Go statements the decoders use (anything it does not model is reported as undecided); the table is the external specification.",
 		Technique:   "type-resolved struct-tag model of encoding/xml checked against an external name table; abstract interpretation of the scanner and of the custom decoders over the finite set of element / attribute names, observing DecodeElement calls with symbolic arguments, loop back edges, returns and the final receiver state",
@@ -41,7 +41,7 @@ func init() {
 			{ID: "T4", Floor: 13, Doc: "custom decoders: Action.UnmarshalXML child elements (5 + 5) and type attribute; Date layout and decode", Run: c03T4},
 			{ID: "T5", Floor: 7, Doc: "the scanner publishes the decoded object unmodified: no store through it, no hand-off, between DecodeElement and return (7 names)", Run: c03T5},
 		},
-		Mutants: []core.Mutant{
+		Mutants: append([]core.Mutant{
 			{Name: "waynode-latlon-swapped", File: "way.go", Find: "Lat         float64     `xml:\"lat,attr,omitempty\"`\n\tLon         float64     `xml:\"lon,attr,omitempty\"`", Replace: "Lat         float64     `xml:\"lon,attr,omitempty\"`\n\tLon         float64     `xml:\"lat,attr,omitempty\"`", ExpectRule: "T1", ExpectConstruct: "ext WayNode"},
 			{Name: "node-latlon-swapped", File: "node.go", Find: "Lat         float64             `xml:\"lat,attr\" json:\"lat\"`\n\tLon         float64             `xml:\"lon,attr\" json:\"lon\"`", Replace: "Lat         float64             `xml:\"lon,attr\" json:\"lat\"`\n\tLon         float64             `xml:\"lat,attr\" json:\"lon\"`", ExpectRule: "T1", ExpectConstruct: "Node @lat"},
 			{Name: "nd-ref-as-element", File: "way.go", Find: "ID NodeID `xml:\"ref,attr,omitempty\"`", Replace: "ID NodeID `xml:\"ref,omitempty\"`", ExpectRule: "T1", ExpectConstruct: "WayNode @ref"},
@@ -63,8 +63,8 @@ func init() {
 			{Name: "action-no-relation", File: "diff.go", Find: "\t\tcase \"relation\":\n\t\t\tr := &Relation{}\n\t\t\tif err := d.DecodeElement(&r, &start); err != nil {\n\t\t\t\treturn err\n\t\t\t}\n\t\t\ta.OSM = &OSM{Relations: Relations{r}}\n", Replace: "", ExpectRule: "T4", ExpectConstruct: "relation"},
 			{Name: "action-type-wrong-attr", File: "diff.go", Find: "if attr.Name.Local == \"type\" {", Replace: "if attr.Name.Local == \"action\" {", ExpectRule: "T4", ExpectConstruct: "attr@"},
 			{Name: "date-parse-other-layout", File: "note.go", Find: "d.Time, err = time.Parse(dateLayout, s)", Replace: "d.Time, err = time.Parse(time.RFC3339, s)", ExpectRule: "T4", ExpectConstruct: "layout@Date"},
-		},
-		Benign: c03Benign,
+		}, c03Mutants2List()...),
+		Benign: append(append([]core.Mutant{}, c03Benign...), c03Benign2List()...),
 	})
 }
 
@@ -362,6 +362,7 @@ type c03DateObs struct {
 	encode   []*c03Event // Encode / EncodeElement calls of MarshalXML
 	unParams [2]*types.Var
 	aborted  string
+	manual   []*c03Event // Token / Skip calls of UnmarshalXML: the text is collected by hand
 }
 
 func c03ObserveDate(r *core.R) *c03DateObs {
@@ -406,6 +407,8 @@ func c03ObserveDate(r *core.R) *c03DateObs {
 			return &o.parse
 		case c03IsDecoderCall(e, "DecodeElement"), c03IsDecoderCall(e, "Decode"):
 			return &o.decode
+		case c03IsDecoderCall(e, "Skip"), c03IsDecoderCall(e, "Token"), c03IsDecoderCall(e, "RawToken"):
+			return &o.manual
 		}
 		return nil
 	})
@@ -458,6 +461,20 @@ func c03DateDecode(r *core.R) {
 	c := "decode@(*Date).UnmarshalXML"
 	if o.aborted != "" {
 		r.Unknown(c, o.un.Decl.Pos(), "Date's XML methods could not be explored completely: %s", o.aborted)
+		return
+	}
+	hasSkip := false
+	for _, e := range o.manual {
+		if c03IsDecoderCall(e, "Skip") {
+			hasSkip = true
+		}
+	}
+	if len(o.decode) == 0 && len(o.manual) > 0 && !hasSkip {
+		r.Unknown(c, o.manual[0].Node.Pos(), "Date.UnmarshalXML collects the element's text by reading tokens itself (`%s`) instead of through DecodeElement: whether every CharData token up to the end element is accumulated (text interrupted by comments / CDATA arrives in several tokens) is not decided by this rule", src(r.P.Fset, o.manual[0].Call))
+		return
+	}
+	if len(o.decode) == 0 && len(o.manual) > 0 {
+		r.Bad(c, o.manual[0].Node.Pos(), "Date.UnmarshalXML no longer lets DecodeElement collect the element's text but reads tokens by hand and skips the rest of the element (`%s` ... Skip): encoding/xml delivers the text of an element as several CharData tokens when it is interrupted by a comment, a processing instruction or a CDATA section (and a Comment token first when one precedes the text), and Skip drops whatever follows the token read, so well-formed dates are misread while a tag-driven decode of the same text accepts them", src(r.P.Fset, o.manual[0].Call))
 		return
 	}
 	if len(o.decode) != 1 || o.unParams[0] == nil {
